@@ -63,10 +63,12 @@ var c03Sigs = map[string][]string{
 		"false <= !(*filter.FilterNode).isStatusCodeQualified(param:node, param:flow, param:apiStream) ; (*filter.FilterNode).isHeadersQualified(param:node, param:flow, param:apiStream)",
 		"true <= (*filter.FilterNode).isHeadersQualified(param:node, param:flow, param:apiStream) ; (*filter.FilterNode).isMethodQualified(param:node, param:flow, param:apiStream) ; (*filter.FilterNode).isQueryParamsQualified(param:node, param:flow, param:apiStream) ; (*filter.FilterNode).isStatusCodeQualified(param:node, param:flow, param:apiStream)",
 	},
-	"isFlowValid": {
-		"(*filter.FilterNode).validate(param:node, param:flow, param:apiStream) <= !(public-types.FilterI).IsExpressionFilter((internal-types.FlowI).GetFilter(param:flow)) ; (public-types.FilterI).ShouldAllowSample((internal-types.FlowI).GetFilter(param:flow))",
-		"(*filter.FilterNode).validateExpr(param:node, param:flow, param:apiStream) <= (public-types.FilterI).IsExpressionFilter((internal-types.FlowI).GetFilter(param:flow)) ; (public-types.FilterI).ShouldAllowSample((internal-types.FlowI).GetFilter(param:flow))",
+	"isFlowValid": { // a returned condition X is read as: true when X, false when !X (decision.go)
+		"false <= !(*filter.FilterNode).validate(param:node, param:flow, param:apiStream) ; !(public-types.FilterI).IsExpressionFilter((internal-types.FlowI).GetFilter(param:flow)) ; (public-types.FilterI).ShouldAllowSample((internal-types.FlowI).GetFilter(param:flow))",
+		"false <= !(*filter.FilterNode).validateExpr(param:node, param:flow, param:apiStream) ; (public-types.FilterI).IsExpressionFilter((internal-types.FlowI).GetFilter(param:flow)) ; (public-types.FilterI).ShouldAllowSample((internal-types.FlowI).GetFilter(param:flow))",
 		"false <= !(public-types.FilterI).ShouldAllowSample((internal-types.FlowI).GetFilter(param:flow))",
+		"true <= !(public-types.FilterI).IsExpressionFilter((internal-types.FlowI).GetFilter(param:flow)) ; (*filter.FilterNode).validate(param:node, param:flow, param:apiStream) ; (public-types.FilterI).ShouldAllowSample((internal-types.FlowI).GetFilter(param:flow))",
+		"true <= (*filter.FilterNode).validateExpr(param:node, param:flow, param:apiStream) ; (public-types.FilterI).IsExpressionFilter((internal-types.FlowI).GetFilter(param:flow)) ; (public-types.FilterI).ShouldAllowSample((internal-types.FlowI).GetFilter(param:flow))",
 	},
 	"validateExpr": {
 		"false <= !((public-types.APIStreamI).JSONPathQuery(param:apiStream, phi[(public-types.FilterI).GetReqExpressions((internal-types.FlowI).GetFilter(param:flow)) | (public-types.FilterI).GetResExpressions((internal-types.FlowI).GetFilter(param:flow))][i])#1 != nil) ; (builtin.len((public-types.APIStreamI).JSONPathQuery(param:apiStream, phi[(public-types.FilterI).GetReqExpressions((internal-types.FlowI).GetFilter(param:flow)) | (public-types.FilterI).GetResExpressions((internal-types.FlowI).GetFilter(param:flow))][i])#0) == 0)",
@@ -130,7 +132,7 @@ func runC03(w *World, r *Report) {
 			if n == "validate" || n == "isFlowValid" {
 				rule = "R2"
 			}
-			checkSigs(r, rule, n, f, 0, c03Sigs[n])
+			checkDecision(r, rule, n, f, 0, c03Sigs[n])
 		}
 	}
 	// header map construction feeds isHeaderValueValid with key -> values of the flow's own headers
@@ -343,7 +345,7 @@ func runC03(w *World, r *Report) {
 	r.Min("R7", 2)
 	r.Min("R8", 2)
 	r.Min("R1", 8)
-	r.Min("R2", 8)
+	r.Min("R2", 4)
 	r.Min("R3", 6)
 	r.Min("R4", 18)
 	r.Min("R5", 1)
